@@ -76,6 +76,7 @@ def main():
             res["detected_with_failing_input"] = any(l.startswith("VIOLATION") and "no-failing-input-found" not in l for l in out.splitlines())
         finally:
             sh("git -C /repo checkout -- .")
+            sh(f"cd {VERIF} && python3 lib/regen_all.py")
     dst = os.path.join(VERIF, "seeded", name)
     os.makedirs(dst, exist_ok=True)
     shutil.copy(patch, os.path.join(dst, "patch.diff"))
